@@ -20,6 +20,7 @@ from .scheduler import Scheduler, pkey
 from .world import PathError, World, held_changes, path_arg_ids, reference, reference_alt_form
 
 RUN_TIMEOUT_S = 40
+AMBIENT_EXCEPTIONS = ("RecursionError", "FloatingPointError")
 WARNING_NAMES = ("RuntimeWarning", "UserWarning", "DeprecationWarning", "FutureWarning", "Warning")
 
 
@@ -196,9 +197,14 @@ def compare(sc, hist, orc):
     seen_spec = {}
     for ev in hist["events"]:
         op = ev["op"]
-        if op[0] == "READ":
+        if op[0] in ("READ", "READX"):
             sid, path = ev["sid"], op[3]
             hkey = "%s.%s|%s" % (op[1], op[2], pkey(path))
+            if op[0] == "READX":
+                # the hostile host state may legitimately change what THIS read returns (it may fail,
+                # or take one of the library's documented fallbacks such as the default repr); only
+                # what it leaves behind counts, and that is judged by every later read
+                continue
         elif op[0] == "PROBE":
             sid, path = op[1], op[2]
             hkey = None
@@ -211,7 +217,7 @@ def compare(sc, hist, orc):
         v = None
         if ev["d"] != exp[0]:
             v = {
-                "invariant": "I3" if op[0] == "READ" else "I4",
+                "invariant": "I3" if op[0] in ("READ", "READX") else "I4",
                 "step": ev["i"],
                 "sid": sid,
                 "path": path,
@@ -298,7 +304,7 @@ def log_digest(hist, orc):
 def run_stats(sc, hist, violations):
     kn = sc["knobs"]
     ops = {}
-    fired = {"F1": 0, "F2": 0, "F3": 0, "F4": 0, "F5": 0}
+    fired = {"F1": 0, "F2": 0, "F3": 0, "F4": 0, "F5": 0, "F6": 0}
     probes = {}
     edits = 0
     edited_args = set()
@@ -320,7 +326,11 @@ def run_stats(sc, hist, violations):
         kind = op[0]
         ops[kind] = ops.get(kind, 0) + 1
         target = ""
-        if kind == "READ":
+        if kind == "READX":
+            fired["F6"] += 1
+            if ev.get("x") in AMBIENT_EXCEPTIONS:
+                bump("read_failed_because_of_hostile_host_state (%s)" % ev["x"])
+        if kind in ("READ", "READX"):
             hk = "%s.%s|%s" % (op[1], op[2], pkey(op[3]))
             if hk in failed_before:
                 bump("failed_read_repeated_on_same_object")
@@ -342,8 +352,8 @@ def run_stats(sc, hist, violations):
                 if spec["type"] == "cubeset" and any(a in bad_args for a in aids):
                     bump("construct_poisoned_set")
             target = spec["type"]
-        if kind in ("READ", "PROBE"):
-            path = op[3] if kind == "READ" else op[2]
+        if kind in ("READ", "READX", "PROBE"):
+            path = op[3] if kind in ("READ", "READX") else op[2]
             target = str(path_family(path))
             if ev.get("x"):
                 head = ev["x"]
@@ -355,7 +365,7 @@ def run_stats(sc, hist, violations):
                 spec = sc["specs"][sid]
                 if spec["type"] == "cubeset" and any(a in bad_args for a in model.spec_arg_ids(spec)):
                     fired["F4"] += 1
-            if kind == "READ" and len(path) >= 2 and path[0] in ("partitions", "partition_sets"):
+            if kind in ("READ", "READX") and len(path) >= 2 and path[0] in ("partitions", "partition_sets"):
                 partitions_read.setdefault("%s.%s" % (op[1], op[2]), set()).add(
                     pkey([p for p in path[:3] if isinstance(p, int)])
                 )
@@ -404,7 +414,7 @@ def run_stats(sc, hist, violations):
                         bump("edit:response.dimensions inserted (inflate)")
                     elif "counts" in dc or ".data" in dc:
                         bump("edit:response counts replaced (augment)")
-        inter.update(("%s/%s/%s;" % (op[1] if kind in ("CONSTRUCT", "READ", "DROP") else "-", kind, target)).encode())
+        inter.update(("%s/%s/%s;" % (op[1] if kind in ("CONSTRUCT", "READ", "READX", "DROP") else "-", kind, target)).encode())
     if kn["warnings"] == "error":
         bump("runs_with_warnings_as_errors")
     # sharing actually exercised (not merely configured): >= 2 different specs built on one argument
